@@ -69,6 +69,48 @@ def alphabet(fa):
                            scale=True, size=None, possibly_zero_z=True))]
     for func, n, kw in lax:
         reqs.append(dict(kind="apmath_lax", target="lax", func=func, sig=["%s:ArrayLike" % v for v in "xyz"[:n]], kwargs=kw))
+    # EVERY definition of algorithms.py (found by introspection, so new ones are included), also those no target
+    # lists in trace_arguments, in both precisions on one target each (rotating); a request the package cannot
+    # serve answers with its exception text, which must be as history independent as a generated text
+    import inspect
+    defs = []
+    for name in sorted(dir(fa.algorithms)):
+        f = getattr(fa.algorithms, name)
+        if name.startswith("_") or not callable(f) or inspect.isclass(f) or not getattr(f, "__module__", "").endswith("algorithms"):
+            continue
+        try:
+            ps = list(inspect.signature(f).parameters)
+        except (TypeError, ValueError):
+            continue
+        if ps and ps[0] == "ctx" and 1 <= len(ps) - 1 <= 4:
+            defs.append((name, len(ps) - 1))
+    rot = ["numpy", "cpp", "stablehlo"]
+    have = {(r["target"], r["func"], tuple(r["sig"])) for r in reqs if r["kind"] == "algorithm"}
+    for i, (name, ar) in enumerate(defs):
+        tname = rot[i % 3]
+        tys = ["complex64", "complex128"] if name.startswith("complex_") else ["float32", "float64"] if name.startswith("real_") else ["float32", "float64", "complex64"]
+        for ty in tys:
+            sig = [":" + ty] * ar
+            if (tname, name, tuple(sig)) not in have:
+                reqs.append(dict(kind="algorithm", target=tname, func=name, sig=sig, alldefs=True))
+    # context parameters are part of a request: the same function with and without each documented parameter
+    for tname, func, sig, params in [
+            ("python", "hypot", [":float", ":float"], dict(rewrite_keep_integer_literals=True)),
+            ("python", "square", [":complex"], dict(rewrite_keep_integer_literals=True)),
+            ("stablehlo", "asin", [":float"], dict(rewrite_keep_integer_literals=True)),
+            ("cpp", "absolute", [":complex"], dict(rewrite_keep_integer_literals=True)),
+            ("numpy", "log1p", [":complex64"], dict(use_fast2sum=True)),
+            ("numpy", "log1p", [":complex64"], dict(use_fast2sum=False)),
+            ("stablehlo", "log", [":complex64"], dict(use_fast2sum=False)),
+            ("numpy", "hypot", [":float32", ":float32"], dict(use_upcast_multiply=True)),
+            ("numpy", "hypot", [":float32", ":float32"], dict(use_upcast_sqrt=True, use_upcast_multiply=True)),
+            ("numpy", "square", [":complex64"], dict(use_native_square=True)),
+            ("numpy", "acosh", [":float32"], dict(safe_max_limit_coefficient=0.5)),
+            ("numpy", "asinh", [":float32"], dict(safe_min_limit=1e-3))]:
+        reqs.append(dict(kind="algorithm", target=tname, func=func, sig=sig, parameters=params))
+        plain = dict(kind="algorithm", target=tname, func=func, sig=sig)
+        if not any(all(r.get(k) == v for k, v in plain.items()) and not r.get("parameters") and not r.get("debug") and not r.get("same_ctx_key") for r in reqs):
+            reqs.append(plain)
     return reqs
 
 
@@ -129,6 +171,19 @@ def run(tier, seed):
     ex3 = tlc_histories("HIST_Pipeline.cfg", cheap, 3, chk)
     ex2 = tlc_histories("HIST_Pipeline.cfg", cheap, 2, chk)
     sim = tlc_histories("SIM_Pipeline.cfg", range(n), 40, chk, simulate=8 if quick else 64, seed=seed + 3)
+    # requests that differ ONLY in their context parameters: every sequence of length <= 2 over each such pair
+    # (a parameter value that sticks in process-global state shows when the pair is the whole history)
+    def base(a):
+        return json.dumps({k: v for k, v in a.items() if k not in ("parameters", "alldefs")}, sort_keys=True)
+    groups = {}
+    for i, a in enumerate(alpha):
+        if not a.get("debug") and not a.get("same_ctx_key") and a["kind"] == "algorithm":
+            groups.setdefault(base(a), []).append(i)
+    param_pairs = [g for g in groups.values() if len(g) >= 2 and any(alpha[i].get("parameters") for i in g)]
+    pairs_h = []
+    for g in param_pairs:
+        pairs_h += tlc_histories("HIST_Pipeline.cfg", g, 2, chk)
+    chk.cov["parameter_variant_groups"] = len(param_pairs)
     full = list(range(n))
     seeds = [0, 1, 12345 + seed] if quick else [0, 1, 2, 3, 7, 42, 1000, 12345 + seed, 99991, 2 ** 31 - 1, 4242, 31337]
     plans = {}
@@ -140,6 +195,8 @@ def run(tier, seed):
         hs += sim[k::len(seeds)] if not quick else sim[k * 2:k * 2 + 3]
         if k < 2 or not quick:
             hs += ex3 if (k == 0 or not quick) else ex2
+        if k == 0 or not quick:
+            hs += pairs_h
         plans[s] = hs
     procs = {s: run_seed(s, alpha, hs, 5 if quick else 3) for s, hs in plans.items()}
     events = []
